@@ -70,3 +70,21 @@ func TestReloadOfResourceWhileRequestsArrive(t *testing.T) {
 		t.Fatalf("unexpected: %v", r)
 	}
 }
+
+// Two entries hold probes of two different breakers at once; the one that is then rejected rolls back only the breaker it
+// probed (scenario of seeded change C12-r6-2).
+func TestTwoProbesAlive(t *testing.T) {
+	r := runOps("case a\ncb.new ec 10 1 1 0 0\nrule 1 10 1 1 2 0\nthread 0 rl:1,0\nsched\nthread 0 c:1:err\nsched\nsched tick:10\n" +
+		"thread 0 tp\nthread 1 tp\nsched 0 0 0 1 1 1 1 0 0\nresults\nlog\nfinal\n")
+	if r["results"] != "0:[f] 1:[t]" || r["log"] != "[C>O@0,C>O@0,O>H@0,O>H@1,H>O@0]" || r["final"] != "clk=10 list=1.2 o0=C,-,0 o1=O,10,0 o2=H,10,0" {
+		t.Fatalf("unexpected: %v", r)
+	}
+}
+
+// A probe through a context without SentinelEntry is admitted and reported (scenario of seeded change C12-r6-3).
+func TestProbeWithoutEntry(t *testing.T) {
+	r := runOps("case a\ncb.new ec 10 1 1 0 0\nthread 0 c:1:err\nsched\nsched tick:10\nthread 0 tpn\nsched\nresults\nlog\nfinal\n")
+	if r["results"] != "0:[t]" || r["log"] != "[C>O@0,O>H@0]" || r["final"] != "clk=10 list=0 o0=H,10,0" {
+		t.Fatalf("unexpected: %v", r)
+	}
+}
